@@ -585,3 +585,15 @@ PROPS["C03"]["manifest"]["text"] = PROPS["C03"]["manifest"]["text"].replace(
     "w3_needed / w3_error / w3_needed_v6 for W3 (an IPv6 block other than ::/0 containing ::ffff:0:0/96: known finding "
     "C03-ipv6-block-over-ipv4-range, its repair fails dnsdata's own golden tests).")
 PROPS["C03"]["manifest"]["note"] = "Hypotheses W1 and W3 (DESIGN.md section 6 C03 and 11.13) are enforced by the generator and explicit in the theorems; W3 is a known finding, not a well-formedness condition."
+PROPS["C03"]["manifest"]["text"] = PROPS["C03"]["manifest"]["text"].replace(
+    "under W1 (no duplicate block) and W3 only - the former hypothesis W2 (0.0.0.0/n and ::/n taken for default routes) was a "
+    "defect of Rearranger.AddLocation, repaired in /repo, and is gone from every theorem; proved negative witnesses "
+    "w3_needed / w3_error / w3_needed_v6 for W3 (an IPv6 block other than ::/0 containing ::ffff:0:0/96: known finding "
+    "C03-ipv6-block-over-ipv4-range, its repair fails dnsdata's own golden tests).",
+    "under W1 (no duplicate block) alone - the former hypotheses W2 (0.0.0.0/n and ::/n taken for default routes) and W3 (an "
+    "IPv6 block other than ::/0 containing ::ffff:0:0/96) described defects of the rearranger, repaired in /repo (828f037, "
+    "277e200, d84245a), and are gone from every theorem; the former negative witnesses are positive examples now, "
+    "exSubnetsW2 / exSubnetsW3 / exFileW3 apply the theorems to sets that violate the old hypotheses.")
+PROPS["C03"]["manifest"]["note"] = ("Hypotheses: aligned blocks, no duplicate (network, length) per map (W1: contradictory data, "
+    "the two backends keep different ones - w1_needed_rdb), 2-byte location ids; LocIdsOK / NoPctTag / EcsRegular for the "
+    "file-level theorems (DESIGN.md 11.10, 11.13).")
